@@ -22,19 +22,21 @@ patched scratch tree (`VERIF_REPO_ROOT`, equivalent to `git -C /repo apply` + ch
 touching /repo while background sweeps read it).  `history` notes where a check was strengthened because the
 change would have been (or was) missed by its first version.
 
-Three rounds, 120 changes (two per property and round; tags A/B, C/D, E/F).  Round 1 asked for a change that
+Four rounds, 160 changes (two per property and round; tags A/B, C/D, E/F, G/H).  Round 1 asked for a change that
 "needs something specific to manifest"; round 2 for regressions away from the obvious function (shared helpers,
 constructor normalisation, cached state, build-then-modify, serialize-then-reuse, two cooperating edits); round 3
 excluded those patterns and asked for overlooked clauses of the statement, alternative entry paths, shape / dtype /
-magnitude corners and cross-module interactions.  First-evaluation result of the registered quick check of the
-seeded property: round 1: 39 of 40 caught (C20-A missed), round 2: 24 of 40, round 3: 22 of 40.  Every miss was
+magnitude corners and cross-module interactions; round 4 for well-motivated maintenance edits with an unintended
+consequence (API modernisation, numerical-stability / performance tweaks, over-correcting fixes,
+generalisations).  First-evaluation result of the registered quick check of the
+seeded property: round 1: 39 of 40 caught (C20-A missed), round 2: 24 of 40, round 3: 22 of 40, round 4: 28 of 40.  Every miss was
 turned into a strengthening of the workload or the oracle (never a special case for the seeded input), after which
-all 120 are caught; the strengthenings are what section 11 and the corrections log describe (construction routes,
+all 160 are caught; the strengthenings are what section 11 and the corrections log describe (construction routes,
 second rebuild, parse history independence, argument spellings, frozen layers, focus models for rare conjunctions,
 geometry sweeps with a static batch, persistence monitors, stressed reference, printed quantizer form, ...).  Two
 seeds also exposed weaknesses of the *findings* machinery: C03-C was masked by a too coarse known-finding signature
 (F-C03-3, now keyed by the platform's log2 shortfall) and C09-E led to a genuine defect of the unchanged tree
-(tensor-valued `alpha` of `quantized_linear`, repaired in 09c5eb0).  Where a change written for one property is a
+(tensor-valued `alpha` of `quantized_linear`, repaired in 09c5eb0); C18-G led to known finding F-C18-5.  Where a change written for one property is a
 violation of a neighbouring statement only (C01-F, C04-E: training-phase / stochastic behaviour), the table names
 the check that catches it.  Patches are stored against the /repo commit named in each meta.json (`repo_head`);
 C09-E was rebased onto fix 09c5eb0, which touches the same lines (the original is kept next to it).
